@@ -6,6 +6,7 @@ import (
 	"fmt"
 	"math/rand"
 	"sort"
+	"strings"
 
 	metav1 "k8s.io/apimachinery/pkg/apis/meta/v1"
 
@@ -278,7 +279,7 @@ func genScenario(rng *rand.Rand, id string) *scenario {
 			kc := kidCfg{Kind: k.Kind, Name: name, Value: values[rng.Intn(len(values))]}
 			// one desired child in eight carries a status block, as templates copied from live
 			// objects do (decided by the name, so that the rest of the scenario stream is unchanged)
-			switch h := sim.Hash(name + "status"); {
+			switch h := sim.Hash(strings.ReplaceAll(name, id, "") + "status"); {
 			case h[0] == '0':
 				kc.Status = map[string]interface{}{}
 			case h[0] == '1':
